@@ -82,8 +82,18 @@ def run(facts, tr, rep):
             if d in roles:
                 return roles[d]
         return None
+    # the thresholds are judged on a view in which every helper except the context's mutators themselves is inlined:
+    # an `apply_check_outcome(outcome, success_threshold, failure_threshold)` helper is analysed once per call site,
+    # with that call's arguments (a swapped pair at one of two call sites must not hide behind the other)
+    from ..inline import view_of
+    facts_w, tr_w = facts, tr
+    keep_ = set(roles) | {b_.def_ for b_ in facts.crates[CRATE].bodies if b_.kind == "fn" and b_.j.get("vis") == "pub" and
+                          b_.name in ("status", "consecutive_failures", "consecutive_successes")}
+    facts, tr = view_of(facts, keep_)
     sites = []
     for b in facts.crates[CRATE].bodies:
+        if facts.absorbed(b):
+            continue
         for c in graph(b).calls():
             if role_of(c) == "set_status":
                 sites.append((b, c))
@@ -103,83 +113,93 @@ def run(facts, tr, rep):
     b = sites[0][0]
     rep.saw(b)
     g = graph(b)
-    # the status match
-    arms_sw = None
+    # the status match(es): the match on the check result whose arms hold the status publications.  An outcome helper
+    # inlined at two call sites gives two such matches; each is judged with the sites it dominates.  Other matches on
+    # a HealthStatus (conversions, is_usable) may be inlined into this body too: they dominate no publication.
+    all_sites = [(b_, c_) for (b_, c_) in sites if b_ is b and g.live(c_.bb)]
+    groups = []
     for bb in range(g.n):
         sw = g.switch(bb)
-        if sw is not None and sw.kind == "enum" and {"Healthy", "Degraded", "Unhealthy", "Unknown"} <= set(sw.variants):
-            arms_sw = sw
-    if arms_sw is None:
+        if sw is not None and sw.kind == "enum" and {"Healthy", "Degraded", "Unhealthy", "Unknown"} <= set(sw.variants) and g.live(bb):
+            mine = [(b_, c_) for (b_, c_) in all_sites
+                    if any(g.edge_dominates((bb, t_), c_.bb) for t_ in set(sw.variants.values()) if t_ is not None)]
+            if mine:
+                groups.append((sw, mine))
+    covered = {id(c_) for (_sw, m_) in groups for (_b, c_) in m_}
+    if not groups or any(id(c_) not in covered for (_b, c_) in all_sites):
         rep.anchor_missing("match on the check result's HealthStatus in the check task")
         return
-    rec_s = [c for c in g.calls() if role_of(c) == "record_success"]
-    rec_f = [c for c in g.calls() if role_of(c) == "record_failure"]
-    seen_targets = set()
-    for n, (bb_, c) in enumerate(sites):
-        tgt = _const_variant(tr, b, c.args[1], c.loc)
-        seen_targets.add(tgt)
-        edges = dominating_edges(tr, b, c.bb)
-        arm = [e["label"] for e in edges if e["kind"] == "enum" and e["bb"] == arms_sw.bb]
-        in_arm_bools = [e for e in edges if e["kind"] == "bool" and arms_sw.bb in [arms_sw.bb] and g.node_dominates(arms_sw.bb, e["bb"])]
-        k = skey(b, "set_status(%s)" % tgt)
-        if tgt == "Unhealthy":
-            pre = any(g.node_dominates(r.bb, c.bb) and g.edge_dominates((arms_sw.bb, arms_sw.variants["Unhealthy"]), r.bb) for r in rec_f)
-            gd = _threshold_guard(tr, in_arm_bools, "consecutive_failures", "failure_threshold")
-            ok = arm == ["Unhealthy"] and pre and gd
-            rep.ob("C18.THRESHOLDS", k, ok, c.where(),
-                   "Unhealthy is published only on an unhealthy (or timed-out) check, after counting it, once consecutive_failures >= failure_threshold" if ok else
-                   "Unhealthy is published %s" % ("outside the unhealthy arm" if arm != ["Unhealthy"] else "without counting the failure first" if not pre else
-                                                  "without the test consecutive_failures >= failure_threshold"))
-        elif tgt == "Healthy":
-            pre = any(g.node_dominates(r.bb, c.bb) and g.edge_dominates((arms_sw.bb, arms_sw.variants["Healthy"]), r.bb) for r in rec_s)
-            gd = _threshold_guard(tr, in_arm_bools, "consecutive_successes", "success_threshold")
-            ok = arm == ["Healthy"] and pre and gd
-            rep.ob("C18.THRESHOLDS", k, ok, c.where(),
-                   "Healthy is published only on a healthy check, after counting it, once consecutive_successes >= success_threshold" if ok else
-                   "Healthy is published %s" % ("outside the healthy arm" if arm != ["Healthy"] else "without counting the success first" if not pre else
-                                                "without the test consecutive_successes >= success_threshold"))
-        elif tgt == "Degraded":
-            pre = any(g.node_dominates(r.bb, c.bb) and g.edge_dominates((arms_sw.bb, arms_sw.variants["Degraded"]), r.bb) for r in rec_s)
-            ok = arm == ["Degraded"] and pre and not in_arm_bools
-            rep.ob("C18.THRESHOLDS", k, ok, c.where(),
-                   "Degraded is published at once in the degraded arm, after counting the check as non-failing (which resets the failure run)" if ok else
-                   "Degraded is published %s" % ("outside the degraded arm" if arm != ["Degraded"] else
-                                                 "without record_success(): a degraded result no longer interrupts a run of failures" if not pre else "conditionally"))
-        else:
-            rep.ob("C18.THRESHOLDS", k, False, c.where(), "set_status with a non-constant or unexpected status (%s)" % tgt)
-    rep.ob("C18.THRESHOLDS", skey(b, "targets"), seen_targets == {"Healthy", "Degraded", "Unhealthy"}, g.where(arms_sw.bb),
-           "each of Healthy / Degraded / Unhealthy has its publication site" if seen_targets == {"Healthy", "Degraded", "Unhealthy"} else
-           "publication sites cover %s" % sorted(str(x) for x in seen_targets))
-    # COUNT-ONCE: one check result is counted once — from a recorder call no second recorder call is reachable before
-    # the task waits for the next interval (the iteration boundary: the awaits on a Sleep / Interval tick)
-    recs_all = [c for c in g.calls() if role_of(c) in ("record_success", "record_failure")]
-    boundary = set()
-    for a in g.awaits():
-        if any(k_ in a.fut_ty["s"] for k_ in ("Sleep", "Interval", "Tick")):
-            boundary.add(a.into_bb)
-    for k_, r1 in enumerate(recs_all):
-        again = []
-        if r1.target is not None:
-            r_ = g.reach([r1.target], kinds=(N,), avoid_nodes=list(boundary))
-            again = [r2 for r2 in recs_all if r2.bb in r_]
-        # a body that handles one check per invocation has no boundary inside it: then the recorder must not sit in a cycle
-        cyc = (not boundary) and g.in_cycle(r1.bb)
-        rep.ob("C18.COUNT-ONCE", skey(b, "%s#%d" % (role_of(r1), k_)), not again and not cyc, r1.where(),
-               "after this %s() no further counter update happens for the same check result" % role_of(r1) if not again and not cyc else
-               ("this %s() sits in a loop that does not wait for the next interval" % role_of(r1) if cyc else
-                "after this %s() the same check result reaches %s() at %s: one result is counted twice, so a threshold of n is reached "
-                "after fewer than n consecutive results" % (role_of(r1), role_of(again[0]), again[0].where())))
-    rep.floor("C18.recorder-sites", len(recs_all), 3)
-    # unknown arm: no write reachable inside the arm
-    utgt = arms_sw.variants["Unknown"]
-    other_tgts = {arms_sw.variants[v] for v in ("Healthy", "Degraded", "Unhealthy")}
-    ublocks = {x for x in g.reach([utgt], kinds=(N,)) if g.edge_dominates((arms_sw.bb, utgt), x)}
-    bad = [c for c in g.calls() if c.bb in ublocks and role_of(c) in ("set_status", "record_success", "record_failure")]
-    rep.ob("C18.THRESHOLDS", skey(b, "unknown-arm"), not bad, g.where(utgt),
-           "an unknown check result changes neither the status nor the counters" if not bad else "the unknown arm calls %s" % bad[0].name)
-    # timeout => Unhealthy: the matched status is the Ok payload of timeout(..).await or the constant Unhealthy on its Err edge
-    st_node = tr.expand(tr.place(b, arms_sw.place, arms_sw.defloc), upvars=True, params=True)
-    lv = [peel(x) for x in leaves(st_node)]
+    union_targets = set()
+    all_status_leaves = []
+    for gi_, (arms_sw, sites) in enumerate(groups):
+        gsfx = "" if len(groups) == 1 else "@match%d" % gi_
+        rec_s = [c for c in g.calls() if role_of(c) == "record_success"]
+        rec_f = [c for c in g.calls() if role_of(c) == "record_failure"]
+        seen_targets = set()
+        for n, (bb_, c) in enumerate(sites):
+            tgt = _const_variant(tr, b, c.args[1], c.loc)
+            seen_targets.add(tgt)
+            edges = dominating_edges(tr, b, c.bb)
+            arm = [e["label"] for e in edges if e["kind"] == "enum" and e["bb"] == arms_sw.bb]
+            in_arm_bools = [e for e in edges if e["kind"] == "bool" and arms_sw.bb in [arms_sw.bb] and g.node_dominates(arms_sw.bb, e["bb"])]
+            k = skey(b, "set_status(%s)%s" % (tgt, gsfx))
+            if tgt == "Unhealthy":
+                pre = any(g.node_dominates(r.bb, c.bb) and g.edge_dominates((arms_sw.bb, arms_sw.variants["Unhealthy"]), r.bb) for r in rec_f)
+                gd = _threshold_guard(tr, in_arm_bools, "consecutive_failures", "failure_threshold")
+                ok = arm == ["Unhealthy"] and pre and gd
+                rep.ob("C18.THRESHOLDS", k, ok, c.where(),
+                       "Unhealthy is published only on an unhealthy (or timed-out) check, after counting it, once consecutive_failures >= failure_threshold" if ok else
+                       "Unhealthy is published %s" % ("outside the unhealthy arm" if arm != ["Unhealthy"] else "without counting the failure first" if not pre else
+                                                      "without the test consecutive_failures >= failure_threshold"))
+            elif tgt == "Healthy":
+                pre = any(g.node_dominates(r.bb, c.bb) and g.edge_dominates((arms_sw.bb, arms_sw.variants["Healthy"]), r.bb) for r in rec_s)
+                gd = _threshold_guard(tr, in_arm_bools, "consecutive_successes", "success_threshold")
+                ok = arm == ["Healthy"] and pre and gd
+                rep.ob("C18.THRESHOLDS", k, ok, c.where(),
+                       "Healthy is published only on a healthy check, after counting it, once consecutive_successes >= success_threshold" if ok else
+                       "Healthy is published %s" % ("outside the healthy arm" if arm != ["Healthy"] else "without counting the success first" if not pre else
+                                                    "without the test consecutive_successes >= success_threshold"))
+            elif tgt == "Degraded":
+                pre = any(g.node_dominates(r.bb, c.bb) and g.edge_dominates((arms_sw.bb, arms_sw.variants["Degraded"]), r.bb) for r in rec_s)
+                ok = arm == ["Degraded"] and pre and not in_arm_bools
+                rep.ob("C18.THRESHOLDS", k, ok, c.where(),
+                       "Degraded is published at once in the degraded arm, after counting the check as non-failing (which resets the failure run)" if ok else
+                       "Degraded is published %s" % ("outside the degraded arm" if arm != ["Degraded"] else
+                                                     "without record_success(): a degraded result no longer interrupts a run of failures" if not pre else "conditionally"))
+            else:
+                rep.ob("C18.THRESHOLDS", k, False, c.where(), "set_status with a non-constant or unexpected status (%s)" % tgt)
+        union_targets |= seen_targets
+        # COUNT-ONCE: one check result is counted once — from a recorder call no second recorder call is reachable before
+        # the task waits for the next interval (the iteration boundary: the awaits on a Sleep / Interval tick)
+        recs_all = [c for c in g.calls() if role_of(c) in ("record_success", "record_failure")]
+        boundary = set()
+        for a in g.awaits():
+            if any(k_ in a.fut_ty["s"] for k_ in ("Sleep", "Interval", "Tick")):
+                boundary.add(a.into_bb)
+        for k_, r1 in enumerate(recs_all):
+            again = []
+            if r1.target is not None:
+                r_ = g.reach([r1.target], kinds=(N,), avoid_nodes=list(boundary))
+                again = [r2 for r2 in recs_all if r2.bb in r_]
+            # a body that handles one check per invocation has no boundary inside it: then the recorder must not sit in a cycle
+            cyc = (not boundary) and g.in_cycle(r1.bb)
+            rep.ob("C18.COUNT-ONCE", skey(b, "%s#%d" % (role_of(r1), k_)), not again and not cyc, r1.where(),
+                   "after this %s() no further counter update happens for the same check result" % role_of(r1) if not again and not cyc else
+                   ("this %s() sits in a loop that does not wait for the next interval" % role_of(r1) if cyc else
+                    "after this %s() the same check result reaches %s() at %s: one result is counted twice, so a threshold of n is reached "
+                    "after fewer than n consecutive results" % (role_of(r1), role_of(again[0]), again[0].where())))
+        rep.floor("C18.recorder-sites", len(recs_all), 3)
+        # unknown arm: no write reachable inside the arm
+        utgt = arms_sw.variants["Unknown"]
+        other_tgts = {arms_sw.variants[v] for v in ("Healthy", "Degraded", "Unhealthy")}
+        ublocks = {x for x in g.reach([utgt], kinds=(N,)) if g.edge_dominates((arms_sw.bb, utgt), x)}
+        bad = [c for c in g.calls() if c.bb in ublocks and role_of(c) in ("set_status", "record_success", "record_failure")]
+        rep.ob("C18.THRESHOLDS", skey(b, "unknown-arm"), not bad, g.where(utgt),
+               "an unknown check result changes neither the status nor the counters" if not bad else "the unknown arm calls %s" % bad[0].name)
+        # timeout => Unhealthy: collected per match, judged over all matches below
+        st_node = tr.expand(tr.place(b, arms_sw.place, arms_sw.defloc), upvars=True, params=True)
+        all_status_leaves += [(peel(x), arms_sw.bb) for x in leaves(st_node)]
+    # the evaluated status is the Ok payload of timeout(..).await, or the constant Unhealthy on that await's Err edge
     tb_ = b
     if b.kind != "coroutine":
         cs_ = tr.callers(b.def_)
@@ -191,14 +211,23 @@ def run(facts, tr, rep):
     okt = False
     if aw:
         V = await_node(tb_, aw[0])
+        lv = [x for (x, _bb) in all_status_leaves]
         from_ok = [x for x in lv if derives(tr, x, V, variants=("Ready", "Ok"))]
-        consts = [x for x in lv if x[0] == "agg" and tr.agg_of(x)[1].get("variant") == "Unhealthy"]
+        consts = [(x, bb_) for (x, bb_) in all_status_leaves if x[0] == "agg" and tr.agg_of(x)[1].get("variant") == "Unhealthy"]
         okt = len(from_ok) >= 1 and len(consts) >= 1 and len(from_ok) + len(consts) == len(lv)
+        # the constant is used only where the check timed out
+        for (x, bb_) in consts:
+            errs = [e for e in dominating_edges(tr, tb_, bb_) if e["kind"] == "enum" and e["label"] == "Err" and derives(tr, e["node"], V, variants=("Ready",))]
+            okt = okt and (bool(errs) or len(groups) == 1)
         d = tr.expand(tr.operand(tb_, awaited_call(tr, tb_, aw[0]).args[0], awaited_call(tr, tb_, aw[0]).loc), upvars=True)
         okt = okt and mentions_field(tr, d, "timeout")
-    rep.ob("C18.THRESHOLDS", skey(b, "timeout-is-unhealthy"), okt, g.where(arms_sw.bb),
+    rep.ob("C18.THRESHOLDS", skey(b, "timeout-is-unhealthy"), okt, g.where(groups[0][0].bb),
            "the evaluated status is the checker's answer within config.timeout, or Unhealthy when the check timed out" if okt else
            "the evaluated status is not {checker's answer | Unhealthy on timeout}")
+    rep.ob("C18.THRESHOLDS", skey(b, "targets"), union_targets == {"Healthy", "Degraded", "Unhealthy"}, g.where(groups[0][0].bb),
+           "each of Healthy / Degraded / Unhealthy has its publication site" if union_targets == {"Healthy", "Degraded", "Unhealthy"} else
+           "publication sites cover %s" % sorted(str(x) for x in union_targets))
+    facts, tr = facts_w, tr_w
     # ---------------------------------------------------------------- COUNTERS
     for nm, inc, zero in (("record_failure", "consecutive_failures", "consecutive_successes"), ("record_success", "consecutive_successes", "consecutive_failures")):
         rb = [x for x in facts.crates[CRATE].bodies if roles.get(x.def_) == nm and x.kind == "fn"]
